@@ -3,7 +3,7 @@
     identity a valid match on the own substrate, and gluing along it gives the reaction again. *)
 From Coq Require Import List NArith ZArith Bool Lia Permutation.
 From SK Require Import lib.Tok lib.LGraph model.C03_Model model.C04_Model proof.C03_Proof proof.C03_Glue proof.C03_Backward
-                       proof.C04_Glue proof.C04_Template.
+                       proof.C04_Glue proof.C04_Template proof.C04_Any.
 Import ListNotations.
 Local Open Scope Z_scope.
 
@@ -161,6 +161,19 @@ Section Final.
     unfold its_list, identity, regenerate in *. rewrite rule_is_template in *.
     apply in_map_iff. exists (id_map (node_ids (pattern_of (dec_side iG eG tpl)))). auto.
   Qed.
+
+  (** the same with the pruning premise in the form C11 provides it: the kept list contains the identity composed with
+      a symmetry of the rule (not necessarily the identity itself) *)
+  Theorem in_results_symmetric (s s' : N -> N) (kept : list mapping) :
+    (core = true -> centre_carries (its_construct G H) = true) ->
+    rule_aut tpl s s' -> In (aut_map tpl s) kept ->
+    exists T, In (Some T) (its_list core invert G H kept) /\ regen_exact T A B = true.
+  Proof.
+    intros CC RA I. pose proof (template_describes CC) as D.
+    destruct (aut_regen A B tpl s s' pair_AB D RA) as (_ & T & ET & ER). exists T. split; [|exact ER].
+    unfold its_list. rewrite rule_is_template, mode_implicit, substrate_is_A.
+    apply in_map_iff. exists (aut_map tpl s). split; [|exact I]. rewrite ET. reflexivity.
+  Qed.
 End Final.
 
 Lemma consistent_and_mode (G H : hostg) : pair_wfb G H = true -> no_explicit_H G = true ->
@@ -180,3 +193,11 @@ Lemma centre_exact_all (invert : bool) (G H : hostg) : pair_wfb G H = true -> no
   exists T : its, regenerate true invert G H = Some T /\
     regen_exact T (if invert then H else G) (if invert then G else H) = false.
 Proof. intros W NH. exact (centre_exact true invert G H W NH eq_refl). Qed.
+
+Lemma in_results_symmetric_all (core invert : bool) (G H : hostg) (s s' : N -> N) (kept : list mapping) :
+  pair_wfb G H = true -> no_explicit_H G = true ->
+  (core = true -> centre_carries (its_construct G H) = true) ->
+  rule_aut (template core invert G H) s s' -> In (aut_map (template core invert G H) s) kept ->
+  exists T : its, In (Some T) (its_list core invert G H kept) /\
+    regen_exact T (if invert then H else G) (if invert then G else H) = true.
+Proof. intros W NH. exact (in_results_symmetric core invert G H W NH s s' kept). Qed.
